@@ -30,7 +30,9 @@ CAT = [
     ("string", "S", '"upper"'),
     ("entry-ml", "d", "k4", [("x", "s"), ("y", "t")]),  # multi-line layout, bare reference last, no trailing comma
     ("string", "v", "v"),  # content equal to its own key
-    ("entry", "e", "k5", [("p", "v"), ("q", "{v}"), ("r", "s")]),
+    ("entry", "e", "k5", [("p", "v"), ("q", "{v}"), ("r", "s"), ("w", "e"), ("z", "n")]),
+    ("string", "e", ""),  # no content at all (accepted by the splitter as an @string block): resolves to the empty text
+    ("string", "n", '""'),  # empty content in quotes
 ]
 
 
@@ -49,7 +51,7 @@ def bounds(tier):
 
 
 def shards(tier):
-    return [("first", i) for i in range(len(CAT))] + [("leak", 0)] + [("big", n, v) for n in (bigdocs.SIZES_QUICK if tier == "quick" else bigdocs.SIZES_THOROUGH) for v in (0, 1)]
+    return [("first", i) for i in range(len(CAT))] + [("two_parts", i) for i in range(len(CAT))] + [("leak", 0)] + [("big", n, v) for n in (bigdocs.SIZES_QUICK if tier == "quick" else bigdocs.SIZES_THOROUGH) for v in (0, 1)]
 
 
 def strip1(v):
@@ -130,7 +132,46 @@ def check_doc(ids, acc, case=None, nl="\n"):
             return
 
 
+def check_two_parts(first, acc):
+    """A document handed over in two parts - parse_string(A), then parse_string(B, library=<that library>) - resolves the
+    references of B's entries as parsing A and B in one go does: definitions in the part parsed earlier count."""
+    docs = [ids for n in (1, 2) for ids in itertools.product(range(len(CAT)), repeat=n)]
+    for a in docs:
+        if a[0] != first:
+            continue
+        for b in docs:
+            if not any(CAT[i][0].startswith("entry") for i in b):
+                continue
+            if any(CAT[x][0] == "comment" and CAT[y][0] == "comment" for x, y in zip(a + b, (a + b)[1:])):
+                continue
+            ta = "\n".join(text_of(CAT[i]) for i in a)
+            tb = "\n".join(text_of(CAT[i]) for i in b)
+            case = {"two_parts": [list(a), list(b)]}
+            acc.trace(3)
+            acc.case(nontrivial_key=("two_parts", a, b))
+            try:
+                lib = bibtexparser.parse_string(ta)
+                lib = bibtexparser.parse_string(tb, library=lib)
+                one = bibtexparser.parse_string(ta + "\n" + tb)
+            except Exception as e:
+                acc.exception(e, case, "parse_string(library=...)", size=len(a) + len(b))
+                continue
+            if len(lib.blocks) != len(one.blocks):
+                acc.count("block_count_differs")
+                continue
+            view = lambda L: [(x.key, [(f.key, f.value) for f in x.fields], x.parser_metadata.get("ResolveStringReferences")) for x in L.blocks[len(a) :] if type(x) is Entry]
+            acc.step(("two_parts", a, b), "parse", repr(view(lib)))
+            if view(lib) != view(one):
+                acc.violation(
+                    {"oracle": "field_values_after_resolution", "form": "document parsed in two parts", "kind": "differs from parsing it in one go"},
+                    {"case": case, "text": [ta, tb], "observed": view(lib), "expected": view(one)},
+                    size=len(a) + len(b),
+                )
+
+
 def run_shard(shard, tier, acc):
+    if shard[0] == "two_parts":
+        return check_two_parts(shard[1], acc)
     if shard[0] == "big":
         text, exp = bigdocs.document(shard[1], shard[2])
         want = bigdocs.expected_after_default_stack(exp)
@@ -186,6 +227,8 @@ def replay(case, acc):
         return run_shard(("big", case["big"][0], case["big"][1]), "quick", acc)
     if "leak" in case:
         return run_shard(("leak", 0), "quick", acc)
+    if "two_parts" in case:
+        return check_two_parts(case["two_parts"][0][0], acc)
     check_doc(tuple(case["ids"]), acc, case, nl=case.get("newline", "\n"))
 
 
